@@ -197,6 +197,14 @@ def check_state(st, ent, tier, out):
                 k = set(int(x) for x in view.keep(names).flatten())
                 d = set(int(x) for x in view.drop(names).flatten())
                 a = set(int(x) for x in view.all(names))
+                # the names as other collections (tuple, set, frozenset) mean the same as the list
+                for coll in (tuple(names), set(names), frozenset(names)):
+                    kc = set(int(x) for x in view.keep(coll).flatten())
+                    dc = set(int(x) for x in view.drop(coll).flatten())
+                    if kc != k or dc != d:
+                        bad('name-collection', f"{label}: keep/drop({type(coll).__name__} of {names}) differ from the list form "
+                            f"(keep {len(kc)} vs {len(k)}, drop {len(dc)} vs {len(d)} DOFs)", selection=label, names=names)
+                        return False
                 if len(names) == 1:
                     # a single name given as a bare string means that name (not every name containing it)
                     ks = set(int(x) for x in view.keep(names[0]).flatten())
@@ -482,6 +490,27 @@ def check_state(st, ent, tier, out):
                 continue
             if not check_view(view, want, label, full=(k == 0 and b.elem.nodal_dofs > 0)):
                 break
+    # the coordinate-tuple form names ONE vertex also far from the origin (length unit of a map projection: exact translation
+    # by powers of two, so every coordinate stays exactly representable)
+    if len(st.hist) == 1:
+        try:
+            sh = tuple([2.0 ** 19, 2.0 ** 22, 2.0 ** 20][:m.p.shape[0]])
+            mf = m.translated(sh)
+            try:
+                bfar = CellBasis(mf, ent.make(), intorder=1)
+            except Exception:
+                # globally defined elements are badly conditioned this far from the origin: not a DOF-lookup matter
+                out.count('far_translated_basis_unsupported:' + ent.name)
+                bfar = None
+            for v in (verts[:4] if bfar is not None else ()):
+                out.ev()
+                got = set(int(x) for x in bfar.get_dofs(nodes=tuple(float(x) for x in mf.p[:, v])).flatten())
+                if got != closure_nodes({v}):
+                    bad('coordinate-tuple-far', f"get_dofs(nodes=<coordinates of vertex {v}>) on the mesh translated by {sh} returned "
+                        f"{len(got)} DOFs, expected the {len(closure_nodes({v}))} DOFs at that vertex")
+                    break
+        except Exception as e:
+            bad('exception', f"coordinate-tuple form on the translated mesh raised {e!r}")
     out.outcome((ent.name, st.cls, N))
     if len(st.hist) == 1 and ent.name in ('ElementTriP2', 'ElementTetCCR', 'ElementQuad2', 'Composite(TetN1*TetRT1)'):
         out.sample({'history': list(st.hist), 'element': ent.name, 'facet_selections': len(fsel), 'cell_selections': len(csel),
